@@ -47,8 +47,17 @@ def parse_crate(path):
     feats = t.get("features", {})
     named = [f for f in feats if f != "default"]
     via_dep = {x[4:] for v in feats.values() for x in v if x.startswith("dep:")}
-    implicit = [d for d, spec in t.get("dependencies", {}).items()
-                if isinstance(spec, dict) and spec.get("optional") and d not in via_dep and d not in named]
+    # optional dependencies are implicit features wherever they are declared: [dependencies], [build-dependencies]
+    # and the [target.'cfg(..)'.dependencies] / [target.'cfg(..)'.build-dependencies] tables
+    dep_tables = [t.get("dependencies", {}), t.get("build-dependencies", {})]
+    for tt in t.get("target", {}).values():
+        if isinstance(tt, dict):
+            dep_tables += [tt.get("dependencies", {}), tt.get("build-dependencies", {})]
+    implicit = []
+    for tab in dep_tables:
+        for d, spec in tab.items():
+            if isinstance(spec, dict) and spec.get("optional") and d not in via_dep and d not in named and d not in implicit:
+                implicit.append(d)
     return {"path": path, "name": t["package"]["name"], "named": named, "implicit": implicit,
             "default": list(feats.get("default", [])),
             "implies": [[f, list(v)] for f, v in feats.items() if f != "default"]}
@@ -108,12 +117,18 @@ def sync_stage(ctx, crates):
     os.makedirs(d, exist_ok=True)
     open(os.path.join(d, "lattice_sync.v"), "w").write(sync_file(crates))
     rc, out = vlib.sh(["timeout", "300", "coqc", "-noglob", "-Q", vlib.COQ, "CC", "lattice_sync.v"], cwd=d, timeout=330)
-    idx = vlib.parse_indices(out) if rc == 0 else None
+    # the list of differing crates is printed before the point-count Example is checked: read it even when coqc fails there
+    try:
+        idx = vlib.parse_indices(out)
+    except Exception:  # noqa
+        idx = None
     ok = rc == 0 and idx == []
     if not ok:
         names = [crates[i]["name"] for i in (idx or []) if i < len(crates)]
         ctx.violation({"kind": "lattice-out-of-sync",
                        "crates": names or "see coqc output",
+                       "point_count_matches": rc == 0,
+                       "comparison": "as sets: the order of [features] keys, of a feature's members and of `default` is ignored",
                        "parsed": [{k: c[k] for k in ("name", "named", "implicit", "default", "implies")} for c in crates],
                        "coqc": out[-1500:],
                        "note": "the feature lattice declared by the Cargo.toml files is no longer the lattice of Model/Features.v: "
@@ -279,12 +294,12 @@ def build_config(cfg, lane):
     env = dict(os.environ)
     env["CARGO_NET_OFFLINE"] = "true"
     env["CARGO_TARGET_DIR"] = os.path.join(vlib.BUILD, "target-c20h-%d" % lane)
-    env["RUSTFLAGS"] = " ".join(vlib.BASE_RUSTFLAGS)
+    env["RUSTFLAGS"] = " ".join(vlib.BASE_RUSTFLAGS + (["-C", "target-feature=" + cfg["tf"]] if cfg.get("tf") else []))
     t0 = time.time()
     rc, out = vlib.sh(["cargo", "build", "--offline", "--quiet", "--bin", "h_features"], cwd=d, env=env, timeout=1800)
     if rc != 0:
         return None, trim_diag(out), None, round(time.time() - t0, 1)
-    tag = hashlib.sha1(txt.encode()).hexdigest()[:10]
+    tag = hashlib.sha1((txt + cfg.get("tf", "")).encode()).hexdigest()[:10]
     dst = os.path.join(vlib.BUILD, "bin", "h_features-c20-%s" % tag)
     os.makedirs(os.path.dirname(dst), exist_ok=True)
     shutil.copyfile(os.path.join(env["CARGO_TARGET_DIR"], "debug", "h_features"), dst)
@@ -307,6 +322,23 @@ def build_config(cfg, lane):
     return dst, out, resolved, round(time.time() - t0, 1)
 
 
+LANES = 4
+
+
+def host_target_features():
+    """static target features that can be both compiled in and executed on this machine"""
+    fl = vlib.native_rustflags()
+    return fl[1].split("=", 1)[1].split(",") if fl else []
+
+
+def lanes_of(cfgs):
+    """[(cfg, lane)]: ordinary configurations go round the LANES target directories; a configuration with static target
+    features (RUSTFLAGS differ: cargo would rebuild everything in a shared directory) has a lane of its own"""
+    reg = [c for c in cfgs if not c.get("tf")]
+    ct = [c for c in cfgs if c.get("tf")]
+    return [(c, i % LANES) for i, c in enumerate(reg)] + [(c, LANES + i) for i, c in enumerate(ct)]
+
+
 def configurations(crates, quick):
     by = {c["name"]: c for c in crates}
     P = {key: by[pkg]["points"] if pkg in by else [[]] for key, (pkg, _) in DEP.items()}
@@ -324,6 +356,54 @@ def configurations(crates, quick):
                     "groestl": [f for f in ("lazy_static",) if f in full["groestl"]], "skein": [],
                     "threefish": list(full["threefish"])}},
     ]
+    # Added after the audit of the generators: before, no observed configuration had `simd` (or `std`+`simd`)
+    # without `no_simd`, so ppv-lite86 [simd], [std,simd] and 24 of the 32 c2-chacha points ran nowhere with the x86
+    # back end; blake-hash [std] / [simd] alone and c2-chacha [std] alone were build-checked only. Each configuration
+    # below puts several crates at points no other quick configuration observes (cargo keeps one artefact per
+    # feature set in the lane's target directory, so after the first build these cost a relink each).
+    def only(key, feats):
+        return [f for f in feats if f in full[key]]
+    cfgs += [
+        {"label": "all-features-except-no_simd", "std": True,
+         "points": {k: [f for f in full[k] if f not in ("no_simd", "no_unroll")] for k in DEP}},
+        {"label": "nostd-simd-only", "std": False,
+         "points": {"chacha": only("chacha", ["simd"]), "ppv": only("ppv", ["simd"]), "blake": None, "jh": None,
+                    "groestl": [], "skein": [], "threefish": list(full["threefish"])}},
+        {"label": "std-alone", "std": True,
+         "points": {"chacha": only("chacha", ["std"]), "ppv": [], "blake": only("blake", ["std"]), "jh": only("jh", ["std"]),
+                    "groestl": only("groestl", ["std"]), "skein": [], "threefish": []}},
+        {"label": "simd-alone+api", "std": False,
+         "points": {"chacha": only("chacha", ["rustcrypto_api", "simd"]), "ppv": only("ppv", ["simd"]),
+                    "blake": only("blake", ["simd"]), "jh": [], "groestl": only("groestl", ["lazy_static"]), "skein": [],
+                    "threefish": list(full["threefish"])}},
+        {"label": "nostd-no_simd+simd", "std": False,
+         "points": {"chacha": only("chacha", ["no_simd", "simd", "cipher"]), "ppv": only("ppv", ["simd", "no_simd"]), "blake": None,
+                    "jh": None, "groestl": [], "skein": [], "threefish": []}},
+        {"label": "std-no_simd", "std": True,
+         "points": {"chacha": only("chacha", ["std", "no_simd"]), "ppv": only("ppv", ["std", "no_simd"]), "blake": None, "jh": None,
+                    "groestl": only("groestl", ["std"]), "skein": [], "threefish": []}},
+        {"label": "std-simd-cipher", "std": True,
+         "points": {"chacha": only("chacha", ["std", "simd", "cipher"]), "ppv": only("ppv", ["std", "simd"]), "blake": None, "jh": None,
+                    "groestl": [], "skein": [], "threefish": []}},
+        {"label": "all-crates-default-features", "std": True,
+         "points": {key: list(by[pkg]["default"]) if pkg in by else [] for key, (pkg, _) in DEP.items()}},
+        {"label": "std-api-no_simd", "std": True,
+         "points": {"chacha": only("chacha", ["std", "rustcrypto_api", "no_simd"]), "ppv": [], "blake": None, "jh": None,
+                    "groestl": [], "skein": [], "threefish": list(full["threefish"])}},
+        {"label": "std-simd", "std": True,
+         "points": {"chacha": only("chacha", ["std", "simd"]), "ppv": only("ppv", ["std"]), "blake": None, "jh": None,
+                    "groestl": only("groestl", ["std"]), "skein": [], "threefish": []}},
+        {"label": "nostd-api-no_simd+simd", "std": False,
+         "points": {"chacha": only("chacha", ["rustcrypto_api", "no_simd", "simd"]), "ppv": only("ppv", ["no_simd"]), "blake": None,
+                    "jh": None, "groestl": [], "skein": [], "threefish": list(full["threefish"])}},
+    ]
+    # Static target features select code the way cargo features do (no-std arms of the ppv-lite86 dispatch macros used by
+    # blake-hash / jh-x86_64 / c2-chacha, groestl's static re-export chain); before, C20 only `cargo check`ed them. One
+    # configuration is built AND run with the most capable level this machine can execute.
+    have = host_target_features()
+    if "+avx2" in have and "+aes" in have and "+ssse3" in have:
+        cfgs.append({"label": "all-crates-no-features/ct-avx2+aes", "std": False, "tf": "+ssse3,+sse4.1,+avx,+avx2,+aes",
+                     "points": {k: [] for k in DEP}})
     if quick:
         return cfgs
     # family A: every crate present, crate k at its point number i mod |lattice_k|
@@ -358,23 +438,27 @@ def equality_stage(ctx, crates):
     s0.update({"distinct_nontrivial": 0, "samples": [{"section": k, "case": v[0]} for k, v in list(base.items())[:2]]})
     ctx.add_cov(s0, "default (harness default features)")
     cfgs = configurations(crates, ctx.quick)
-    lanes = 4
+    if not any(c.get("tf") for c in cfgs):
+        ctx.assumptions.append("this machine cannot execute +avx2,+aes code: no configuration with static target features was run")
+    assigned = lanes_of(cfgs)
+    lanes = sorted({k for _, k in assigned})
     report = []
 
     def lane_job(k):
         res = []
-        for cfg in cfgs[k::lanes]:
-            res.append((cfg,) + build_config(cfg, k))
+        for cfg, lane in assigned:
+            if lane == k:
+                res.append((cfg,) + build_config(cfg, k))
         return res
     built = []
-    with ThreadPoolExecutor(max_workers=lanes) as ex:
-        for r in ex.map(lane_job, range(lanes)):
+    with ThreadPoolExecutor(max_workers=len(lanes)) as ex:
+        for r in ex.map(lane_job, lanes):
             built += r
     built.sort(key=lambda x: [c["label"] for c in cfgs].index(x[0]["label"]))
     observed = {}   # (key, frozenset(resolved features)) -> [labels]
     for cfg, binary, log, resolved, secs in built:
         entry = {"label": cfg["label"], "requested": cfg["points"], "harness_std": cfg["std"], "resolved": resolved,
-                 "build_seconds": secs}
+                 "static_target_features": cfg.get("tf", ""), "build_seconds": secs}
         if binary is None:
             entry["status"] = "does-not-build"
             ctx.violation({"kind": "configuration-does-not-build", "configuration": cfg, "diagnostics": log,
@@ -441,9 +525,10 @@ def warm():
     crates = lattice()
     check_all_points(crates)
     vlib.cargo_build(bin_name="h_features")
-    cfgs = configurations(crates, True)
-    with ThreadPoolExecutor(max_workers=4) as ex:
-        list(ex.map(lambda kc: build_config(kc[1], kc[0] % 4), enumerate(cfgs)))
+    assigned = lanes_of(configurations(crates, True))
+    lanes = sorted({k for _, k in assigned})
+    with ThreadPoolExecutor(max_workers=len(lanes)) as ex:
+        list(ex.map(lambda k: [build_config(c, k) for c, lane in assigned if lane == k], lanes))
 
 
 def run(ctx):
